@@ -4364,6 +4364,12 @@ void SoPlexBase<R>::_untransformUnbounded(SolRational& sol, bool unbounded)
       _basisStatusRows.reSize(numOrigRows);
    }
 
+   // whatever is kept of the solution describes the original LP: drop the entries of the auxiliary column and row
+   sol._primal.reDim(numOrigCols);
+   sol._redCost.reDim(numOrigCols);
+   sol._slacks.reDim(numOrigRows);
+   sol._dual.reDim(numOrigRows);
+
    // recover objective function
    const SVectorRational& objRowVector = _rationalLP->rowVector(numOrigRows);
 
@@ -4822,6 +4828,10 @@ void SoPlexBase<R>::_untransformFeasibility(SolRational& sol, bool infeasible)
       _hasBasis = false;
       _basisStatusCols.reSize(numOrigCols);
    }
+
+   // whatever is kept of the solution describes the original LP: drop the entries of the auxiliary column
+   sol._primal.reDim(numOrigCols);
+   sol._redCost.reDim(numOrigCols);
 
    // restore right-hand side
    for(int r = numRowsRational() - 1; r >= 0; r--)
